@@ -200,6 +200,9 @@ def apply_rules(card, sig, body, log):
     sig, body, hits = R.x15_async_mut_params(sig, body)
     for h in hits:
         log.append({'rule': 'X15', 'match': h})
+    sig, body, hits = R.x24_mut_self(sig, body)
+    for h in hits:
+        log.append({'rule': 'X24', 'match': h})
     run('X3', R.x3_let_chain)
     run('X5', R.x5_then)
     run('X17', R.x17_iter_search)
@@ -246,6 +249,9 @@ def emit_fn(card, repo, out, info, twin=False):
     log = []
     sig, body = apply_rules(card, sig, body, log)
     body = squeeze(body)
+    if card.opts.get('rename'):
+        sig = re.sub(r'\bfn\s+%s\b' % re.escape(fname), 'fn ' + card.opts['rename'], sig, count=1)
+        log.append({'rule': 'PROBE', 'match': 'emitted as %s (uncalled copy carrying a property-level clause)' % card.opts['rename']})
     if card.ret:
         sig, ok = name_return(sig, card.ret)
         if not ok:
